@@ -192,6 +192,33 @@ func ruleExcl(p *Prog, r *RuleResult) {
 					sameIf, sameSucc = ifi, succFor(pos, true)
 				}
 			}
+			// both operands must describe the files the names resolve to (os.Stat, following symbolic links) and be
+			// taken from two different name parameters
+			statOf := func(v ssa.Value) (*ssa.Call, bool) {
+				if ex, ok := v.(*ssa.Extract); ok {
+					if c, ok := ex.Tuple.(*ssa.Call); ok {
+						return c, isPkgFunc(&c.Call, "os", "Stat")
+					}
+				}
+				return nil, false
+			}
+			ca, okA := statOf(same.Call.Args[0])
+			cb, okB := statOf(same.Call.Args[1])
+			n++
+			switch {
+			case ca == nil || cb == nil:
+				r.fail(fname+"#same-file-operands", p.IPos(same), "the operands of os.SameFile are not the results of stat calls in this function")
+			case !okA || !okB:
+				r.fail(fname+"#same-file-operands", p.IPos(same), "the same-file test compares a file with os.Lstat (the link itself) instead of os.Stat (the file it resolves to): an input given as a symbolic link to the output is not recognised and gets truncated")
+			default:
+				pa, isPa := ca.Call.Args[0].(*ssa.Parameter)
+				pb, isPb := cb.Call.Args[0].(*ssa.Parameter)
+				if !isPa || !isPb || pa == pb {
+					r.fail(fname+"#same-file-operands", p.IPos(same), "the same-file test does not compare the input name with the output name")
+				} else {
+					r.ok(fname+": same-file test compares os.Stat(input) with os.Stat(output)", p.IPos(same))
+				}
+			}
 			if sameIf == nil {
 				r.fail(fname+"#same-file", p.IPos(same), "the result of os.SameFile does not decide a branch")
 			} else {
@@ -295,7 +322,7 @@ func ruleRemoveOrder(p *Prog, r *RuleResult) {
 		}
 		fname := p.FnName(f)
 		// stream close / write calls
-		var closes, writes []*ssa.Call
+		var closes, writes, buffered, flushes []*ssa.Call
 		var sizeIfs []*ssa.If
 		eachInstr(f, func(i ssa.Instruction) {
 			c, ok := i.(*ssa.Call)
@@ -323,6 +350,14 @@ func ruleRemoveOrder(p *Prog, r *RuleResult) {
 			case "Write":
 				if isStream || rn.Obj().Pkg().Path() == "io" {
 					writes = append(writes, c)
+				}
+				if rn.Obj().Pkg().Path() == "bufio" {
+					writes = append(writes, c)
+					buffered = append(buffered, c)
+				}
+			case "Flush":
+				if rn.Obj().Pkg().Path() == "bufio" {
+					flushes = append(flushes, c)
 				}
 			}
 		})
@@ -386,6 +421,21 @@ func ruleRemoveOrder(p *Prog, r *RuleResult) {
 				r.ok(fmt.Sprintf("%s unreachable from the error edge of each of the %d Write call(s)", key, len(writes)), p.IPos(rm))
 			} else if len(writes) == 0 {
 				r.fail(key+"#write-error", p.IPos(rm), "no Write call found in the function that removes the source")
+			}
+			// output written through a buffered writer: a successful Flush must precede the removal
+			if len(buffered) > 0 {
+				okF := false
+				for _, fc := range flushes {
+					ifi, succ, ok := errEdgeOf(fc)
+					if ok && instrDominates(fc, rm) && !reachesFromBlock(ifi.Block().Succs[succ], rm) {
+						okF = true
+					}
+				}
+				if okF {
+					r.ok(key+" dominated by a successful Flush of the buffered output", p.IPos(rm))
+				} else {
+					r.fail(key+"#flush", p.IPos(rm), "the output is written through a bufio.Writer but the source is removed without a successful Flush before it: at that moment output bytes are still only in memory, so a kill (or a failing final write) loses both source and output")
+				}
 			}
 			// decompression: size check
 			if strings.Contains(strings.ToLower(fname), "decompress") {
